@@ -302,6 +302,10 @@ func (cs *ContractSet) loadFile(path, pkg string, external bool) error {
 			cur.Benign = true
 		case "assume-benign":
 			cur.AssumeBenign = true
+			if os.Getenv("GOVC_AUDIT_BENIGN") != "" && !cur.Trusted {
+				// audit mode: the assumed frame becomes a proof obligation of the function itself
+				cur.Modifies = append(cur.Modifies, "nothing")
+			}
 		case "summary":
 			cur.HO = rest
 		case "modifies":
